@@ -11,7 +11,7 @@
 (* TLC enumerates `Catalogue` (spec/Emit_Corrupt) and the pair universe    *)
 (* `Pairs`; python never invents a recipe that is not in these sets.       *)
 (***************************************************************************)
-EXTENDS Integers, Sequences, FiniteSets
+EXTENDS Integers, Sequences, FiniteSets, TLC
 
 F(field, vcs) == {<<field, v>> : v \in vcs}
 
@@ -221,4 +221,138 @@ C02Closed == Relocs \cup ResizeMap
 
 ASSUME PairSeeds \subseteq Singles
 ASSUME \A t \in Triples : \A k \in 1..3 : t[k] \in Singles
+
+(***************************************************************************)
+(* BOUNDARY CATALOGUE: starting images of C01's own, at the limits of the  *)
+(* on-disk format.  The base images of gen/mkbase.py are 8-32 MiB: one     *)
+(* meta group, two htree levels, extents far below the length limits.      *)
+(* Repair code has branches that only run beyond those limits (the         *)
+(* descriptor block of a LATER meta group, the split of an over-long       *)
+(* merged extent, the three-level branch of the htree builder), so the     *)
+(* universe gets one starting image per limit below, each stated from the  *)
+(* format constants; gen/c01_extras.py builds exactly these (tools of the  *)
+(* tree under test) and binds the roles of BoundaryRoles on them.          *)
+(*                                                                         *)
+(* An element of the universe on a boundary image is                       *)
+(*    <<image, recipe>>  with recipe \in ImageRecipes(image)               *)
+(* -- AsBuilt (the image as the tools built it: `e2fsck -fy` of the        *)
+(* property runs on it unchanged), the recipes of the boundary roles of    *)
+(* its kind, and every recipe of Catalogue whose role binds.  thorough     *)
+(* runs all of them; quick runs Mandatory(image) plus a seeded sample of   *)
+(* the rest.                                                               *)
+(***************************************************************************)
+\* ---- format constants (lib/ext2fs/ext3_extents.h, ext2_fs.h) -------------------------------------------------
+ExtInitMaxLen   == 32768               \* EXT_INIT_MAX_LEN  = 1 << 15: longest written extent (ee_len <= 0x8000)
+ExtUninitMaxLen == ExtInitMaxLen - 1   \* EXT_UNINIT_MAX_LEN: longest unwritten extent (ee_len = 0x8000 + len)
+MinBlockSize    == 1024
+MinBlocksPerGroup == 256               \* smallest -g mke2fs accepts at 1 KiB blocks
+DescPerBlock(bs, ds) == bs \div ds     \* EXT2_DESC_PER_BLOCK: groups per meta group under meta_bg
+DxEntrySize     == 8
+DxTailSize(csum) == IF csum THEN 8 ELSE 0
+DxRootLimit(bs, csum) == (bs - (32 + DxTailSize(csum))) \div DxEntrySize     \* '.' (12) + '..' (12) + dx_root_info (8)
+DxNodeLimit(bs, csum) == (bs - (8 + DxTailSize(csum))) \div DxEntrySize      \* one fake dirent (8)
+\* leaf blocks a tree of 1, 2 levels of index blocks can address (e2fsck/rehash.c calculate_tree, kernel dx_probe)
+DxCap1(bs, csum) == DxRootLimit(bs, csum)
+DxCap2(bs, csum) == DxRootLimit(bs, csum) * DxNodeLimit(bs, csum)
+\* from this many leaves on, a three-level tree has a SECOND second-level index block
+DxTwoSecond(bs, csum) == DxNodeLimit(bs, csum) * DxNodeLimit(bs, csum) + 1
+MaxNameLen      == 255
+DirentLen(n)    == 4 * ((8 + n + 3) \div 4)
+
+\* ---- (i) meta_bg with >= 3 meta groups: 1 KiB blocks, smallest groups, 32- and 64-byte descriptors -----------
+\* the last meta group is full in the one geometry and partial (2 groups) in the other
+\* ipg: inodes per group, as few as hold the ~540 inodes of the host tree of gen/mkbase.py, so that the files reach into the
+\* middle and the last (full) meta group
+MetaBgImages == {[kind |-> "metabg", name |-> "metabg32", bs |-> MinBlockSize, bpg |-> MinBlocksPerGroup, dsize |-> 32,
+                  groups |-> 3 * DescPerBlock(MinBlockSize, 32), ipg |-> 8],
+                 [kind |-> "metabg", name |-> "metabg64", bs |-> MinBlockSize, bpg |-> MinBlocksPerGroup, dsize |-> 64,
+                  groups |-> 3 * DescPerBlock(MinBlockSize, 64) + 2, ipg |-> 16]}
+NMetaGroups(i) == (i.groups + DescPerBlock(i.bs, i.dsize) - 1) \div DescPerBlock(i.bs, i.dsize)
+ASSUME \A i \in MetaBgImages : NMetaGroups(i) >= 3
+
+\* descriptor of the first ("head") and of the last ("tail") group of the first, a middle and the last meta group: every
+\* per-group recipe is bound in each of them (gd_first / gd_mid / gd_last of Catalogue fall into the same three meta groups)
+MetaGroupRoles == {"mgd_" \o w \o "_" \o p : w \in {"first", "mid", "last"}, p \in {"head", "tail"}}
+\* bitmaps of the first group of the middle and of the last meta group
+MetaBitmapRoles == [mgbb_mid |-> BlockBitmap, mgbb_last |-> BlockBitmap, mgib_mid |-> InodeBitmap, mgib_last |-> InodeBitmap]
+
+\* ---- (ii) extents at the length limits --------------------------------------------------------------------
+\* a file = a run of extents that are adjacent logically AND physically (so a rebuild of the tree merges what may merge);
+\* W(n) written, U(n) unwritten
+W(n) == [kind |-> "w", len |-> n]
+U(n) == [kind |-> "u", len |-> n]
+LongShapes == [wumax |-> <<W(ExtInitMaxLen), U(ExtUninitMaxLen)>>,       \* both limits, nothing merges
+               wover |-> <<W(ExtInitMaxLen), W(1)>>,                      \* merges to one block beyond the written limit
+               uover |-> <<U(ExtUninitMaxLen), U(1)>>]                    \* merges to one block beyond the unwritten limit
+\* depth of the tree that holds the run: 0 (in the inode), 1 and 2 -- the deeper ones are deeper than the few extents need,
+\* which is what makes `e2fsck -fy` rebuild them (PR_1E_CAN_COLLAPSE_EXTENT_TREE)
+LongExtentFiles == {[shape |-> s, depth |-> d] : s \in DOMAIN LongShapes, d \in 0..2}
+LongName(f) == f.shape \o "_d" \o <<"0", "1", "2">>[f.depth + 1]
+LongImages == {[kind |-> "longext", name |-> "longext", bs |-> MinBlockSize,
+                files |-> {[name |-> LongName(f), runs |-> LongShapes[f.shape], depth |-> f.depth] : f \in LongExtentFiles}]}
+\* roles: the inode of each file (lx_<file>), the leaf block that holds the run (lxb_<file>, depth >= 1) and the index block
+\* above it (lxi_<file>, depth = 2)
+LongInodeRoles == {"lx_" \o LongName(f) : f \in LongExtentFiles}
+LongLeafRoles  == {"lxb_" \o LongName(f) : f \in {x \in LongExtentFiles : x.depth >= 1}}
+LongIndexRoles == {"lxi_" \o LongName(f) : f \in {x \in LongExtentFiles : x.depth = 2}}
+
+\* ---- (iii) directories at the 1/2-level and 2/3-level boundaries of the htree ------------------------------------
+\* 1 KiB blocks, names of MaxNameLen bytes (3 entries per leaf), large_dir; leaves = what the rebuilt index must address
+DirLeafCounts(bs, csum) == {DxCap1(bs, csum), DxCap1(bs, csum) + 1, DxCap2(bs, csum), DxCap2(bs, csum) + 1, DxTwoSecond(bs, csum)}
+EntriesPerLeaf(bs) == ((bs * 4) \div 5) \div DirentLen(MaxNameLen)     \* rehash.c leaves indexed_dir_slack_percentage = 20 % free
+ASSUME EntriesPerLeaf(MinBlockSize) = 3 /\ (MinBlockSize - 12) \div DirentLen(MaxNameLen) = 3
+\* form "lin": the directory as a linear file (dir_index set in the superblock, directory not indexed, what mke2fs -d writes);
+\* form "idx": the same after the tools indexed it (e2fsck -fyD)
+DirImages == {[kind |-> "bigdir", name |-> "bigdir_" \o f \o "_" \o t[1], bs |-> MinBlockSize, csum |-> FALSE, form |-> f,
+               leaves |-> t[2], entries |-> t[2] * EntriesPerLeaf(MinBlockSize),
+               \* cost class: "quick" images are built and run by both tiers, the others by thorough only
+               tier |-> t[3]] :
+                  f \in {"lin", "idx"},
+                  t \in {<<"cap1", DxCap1(MinBlockSize, FALSE), "quick">>, <<"cap1p", DxCap1(MinBlockSize, FALSE) + 1, "quick">>,
+                         <<"cap2", DxCap2(MinBlockSize, FALSE), "thorough">>, <<"cap2p", DxCap2(MinBlockSize, FALSE) + 1, "thorough">>,
+                         <<"twosecond", DxTwoSecond(MinBlockSize, FALSE), "quick">>}}
+\* index blocks of a tree with three levels: dx_node (Catalogue) is the first second-level block; dx_node_last the last
+\* second-level block, dx_third / dx_third_last the first / last third-level block, dx_leaf_last the last leaf
+DirRoles == [dx_node_last |-> DxNode, dx_third |-> DxNode, dx_third_last |-> DxNode, dx_leaf_last |-> DirBlock,
+             dirblk_big |-> DirBlock]
+
+StartImages == MetaBgImages \cup LongImages \cup DirImages
+
+\* ---- recipes of the boundary roles ----------------------------------------------------------------------------------
+BoundaryRoles == [r \in MetaGroupRoles |-> GroupDesc] @@ MetaBitmapRoles
+                 @@ [r \in LongInodeRoles |-> InodeCommon \cup ExtentRoot]
+                 @@ [r \in LongLeafRoles \cup LongIndexRoles |-> ExtentBlock]
+                 @@ DirRoles
+RolesOfKind == [metabg |-> MetaGroupRoles \cup DOMAIN MetaBitmapRoles,
+                longext |-> LongInodeRoles \cup LongLeafRoles \cup LongIndexRoles,
+                bigdir |-> DOMAIN DirRoles]
+BoundarySingles == UNION {{[role |-> r, field |-> f[1], vc |-> f[2]] : f \in BoundaryRoles[r]} : r \in DOMAIN BoundaryRoles}
+BoundaryCatalogue == {[role |-> s.role, field |-> s.field, vc |-> s.vc, csum |-> c] : s \in BoundarySingles, c \in {"fix", "stale"}}
+AsBuilt == [role |-> "image", field |-> "asbuilt", vc |-> "none", csum |-> "fix"]
+
+\* roles of Catalogue that are run on an image of each kind besides the boundary roles (the rest of Catalogue is exercised on
+\* the base images; on the expensive images only what touches the boundary object)
+CatalogueRolesOn == [metabg  |-> InodeRoles \cup DOMAIN BlockRoles,
+                     longext |-> {"root", "lpf", "free_inode", "sb", "gd_first", "gd_mid", "gd_last", "bb_first", "bb_last", "ib_first", "ib_last"},
+                     bigdir  |-> {"dir_htree", "dx_root", "dx_node", "dx_leaf"}]
+ImageRecipes(kind) == {AsBuilt} \cup {r \in BoundaryCatalogue : r.role \in RolesOfKind[kind]}
+                      \cup {r \in Catalogue : r.role \in CatalogueRolesOn[kind]}
+
+\* quick tier: these on every image of the kind, for every seed (one count repair, one flag repair and one pointer repair in
+\* each bound meta group; one size and one extent repair per long-extent file; one repair per index level)
+M(r, f, v) == [role |-> r, field |-> f, vc |-> v, csum |-> "fix"]
+Mandatory == [
+    metabg |-> {AsBuilt} \cup {M(r, f[1], f[2]) : r \in MetaGroupRoles \cup {"gd_first", "gd_mid", "gd_last"},
+                                                   f \in {<<"bg_free_blocks", "plus1">>, <<"bg_free_inodes", "minus1">>, <<"bg_used_dirs", "plus1">>,
+                                                          <<"bg_flags", "tog_block_uninit">>, <<"bg_inode_bitmap", "plus1">>}}
+               \cup {M(r, "bit", "flip_free") : r \in DOMAIN MetaBitmapRoles}
+               \cup {M(r, "bit", "flip_used") : r \in {"mgib_mid", "mgib_last"}} \cup {M(r, "bit", "flip_data") : r \in {"mgbb_mid", "mgbb_last"}},
+    longext |-> {AsBuilt} \cup {M(r, f[1], f[2]) : r \in LongInodeRoles,
+                                                    f \in {<<"blocks_lo", "plus1">>, <<"size_lo", "plus1">>, <<"ee_len", "tog_uninit">>, <<"ee2_block", "minus1">>}}
+                \cup {M(r, f[1], f[2]) : r \in LongLeafRoles, f \in {<<"eh_entries", "plus1">>, <<"ee_len", "tog_uninit">>, <<"ee2_block", "minus1">>}}
+                \cup {M(r, f[1], f[2]) : r \in LongIndexRoles, f \in {<<"eh_entries", "plus1">>, <<"ee_block", "plus1">>}},
+    bigdir |-> {AsBuilt, M("dx_root", "dx_count", "minus1"), M("dx_node", "dx_limit", "plus1"), M("dx_node_last", "dx_count", "plus1"),
+                M("dx_third", "dx_limit", "minus1"), M("dx_third_last", "dx_limit", "plus1"), M("dx_leaf_last", "d1_name0", "dup"),
+                M("dirblk_big", "d2_name0", "dup"), M("dir_htree", "flags", "tog_index")}]
+ASSUME \A k \in DOMAIN Mandatory : Mandatory[k] \subseteq ImageRecipes(k)
 =============================================================================
